@@ -446,6 +446,15 @@ EGLPNUM_TYPENAME_QSLIB_INTERFACE int EGLPNUM_TYPENAME_QSopt_pivotin_row (
 		}
 	}
 
+	if (p->factorok == 0)
+	{
+		QSlog("EGLPNUM_TYPENAME_QSopt_pivotin_row: the simplex data of the problem are not current "
+								"(it was edited, its basis was replaced or it has not been solved "
+								"by EGLPNUM_TYPENAME_QSopt_primal/dual)");
+		rval = 1;
+		goto CLEANUP;
+	}
+
 	rval = EGLPNUM_TYPENAME_ILLsimplex_pivotin (p->lp, p->pricing, rcnt, rlist,
 														 SIMPLEX_PIVOTINROW, &basismod);
 	CHECKRVALG (rval, CLEANUP);
@@ -483,6 +492,15 @@ EGLPNUM_TYPENAME_QSLIB_INTERFACE int EGLPNUM_TYPENAME_QSopt_pivotin_col (
 			rval = 1;
 			goto CLEANUP;
 		}
+	}
+
+	if (p->factorok == 0)
+	{
+		QSlog("EGLPNUM_TYPENAME_QSopt_pivotin_col: the simplex data of the problem are not current "
+								"(it was edited, its basis was replaced or it has not been solved "
+								"by EGLPNUM_TYPENAME_QSopt_primal/dual)");
+		rval = 1;
+		goto CLEANUP;
 	}
 
 	rval = EGLPNUM_TYPENAME_ILLsimplex_pivotin (p->lp, p->pricing, ccnt, clist,
@@ -2289,6 +2307,15 @@ EGLPNUM_TYPENAME_QSLIB_INTERFACE int EGLPNUM_TYPENAME_QSget_binv_row (
 		goto CLEANUP;
 	}
 
+	if (p->factorok == 0)
+	{
+		QSlog("EGLPNUM_TYPENAME_QSget_binv_row: the simplex data of the problem are not current "
+								"(it was edited, its basis was replaced or it has not been solved "
+								"by EGLPNUM_TYPENAME_QSopt_primal/dual)");
+		rval = 1;
+		goto CLEANUP;
+	}
+
 	rval = EGLPNUM_TYPENAME_ILLlib_tableau (p->lp, indx, binvrow, 0);
 	CHECKRVALG (rval, CLEANUP);
 
@@ -2310,6 +2337,15 @@ EGLPNUM_TYPENAME_QSLIB_INTERFACE int EGLPNUM_TYPENAME_QSget_tableau_row (
 	if (p->cache == 0)
 	{
 		QSlog("LP has not been optimized in EGLPNUM_TYPENAME_QSget_tableau_row");
+		rval = 1;
+		goto CLEANUP;
+	}
+
+	if (p->factorok == 0)
+	{
+		QSlog("EGLPNUM_TYPENAME_QSget_tableau_row: the simplex data of the problem are not current "
+								"(it was edited, its basis was replaced or it has not been solved "
+								"by EGLPNUM_TYPENAME_QSopt_primal/dual)");
 		rval = 1;
 		goto CLEANUP;
 	}
@@ -2338,6 +2374,15 @@ EGLPNUM_TYPENAME_QSLIB_INTERFACE int EGLPNUM_TYPENAME_QSget_basis_order (
 		goto CLEANUP;
 	}
 
+	if (p->factorok == 0)
+	{
+		QSlog("EGLPNUM_TYPENAME_QSget_basis_order: the simplex data of the problem are not current "
+								"(it was edited, its basis was replaced or it has not been solved "
+								"by EGLPNUM_TYPENAME_QSopt_primal/dual)");
+		rval = 1;
+		goto CLEANUP;
+	}
+
 	rval = EGLPNUM_TYPENAME_ILLlib_basis_order (p->lp, basorder);
 	CHECKRVALG (rval, CLEANUP);
 
@@ -2357,6 +2402,15 @@ EGLPNUM_TYPENAME_QSLIB_INTERFACE int EGLPNUM_TYPENAME_QScompute_row_norms (
 	if (p->pricing->dII_price != QS_PRICE_DSTEEP)
 	{
 		QSlog("not using dual steepest edge");
+		rval = 1;
+		goto CLEANUP;
+	}
+
+	if (p->factorok == 0)
+	{
+		QSlog("EGLPNUM_TYPENAME_QScompute_row_norms: the simplex data of the problem are not current "
+								"(it was edited, its basis was replaced or it has not been solved "
+								"by EGLPNUM_TYPENAME_QSopt_primal/dual)");
 		rval = 1;
 		goto CLEANUP;
 	}
@@ -2625,6 +2679,15 @@ EGLPNUM_TYPENAME_QSLIB_INTERFACE int EGLPNUM_TYPENAME_QSget_infeas_array (
 	if (pi == 0)
 	{
 		ILL_ERROR (rval, "QS_get_infeas_array called with NULL pi vector\n");
+	}
+
+	if (p->factorok == 0)
+	{
+		QSlog("EGLPNUM_TYPENAME_QSget_infeas_array: the simplex data of the problem are not current "
+								"(it was edited, its basis was replaced or it has not been solved "
+								"by EGLPNUM_TYPENAME_QSopt_primal/dual)");
+		rval = 1;
+		goto CLEANUP;
 	}
 
 	rval = EGLPNUM_TYPENAME_ILLsimplex_infcertificate (p->lp, pi);
